@@ -125,3 +125,4 @@
               (gmul (select sv (select ee (+ eo (- n 1))))
                     (basept pv (select (select rh (s-arr (select rows (+ ro (- n 1))))) (+ (s-off (select rows (+ ro (- n 1)))) i)))))))
      :pattern ((seqComb sv pv ee eo rows ro rh i n)))))
+(declare-fun vssCertified (Int) Bool)
